@@ -5,10 +5,11 @@ pub mod rng;
 pub mod props {
     pub mod c07;
     pub mod c08;
+    pub mod c09;
 }
 
 use harness::Prop;
 
 pub fn props() -> Vec<&'static Prop> {
-    vec![&props::c07::PROP, &props::c08::PROP]
+    vec![&props::c07::PROP, &props::c08::PROP, &props::c09::PROP]
 }
